@@ -153,8 +153,38 @@ def replay_variable(args):
     return got != want, info, 'variable:%s' % d, 'variable %s holds %r' % (s, got)
 
 
+def replay_prelex(args):
+    """first through the public API (the literal's value in the tree of the real parser, when the content has no quote / back-slash
+    characters and the statement parses); otherwise the text the real parse_sql hands to the lexer"""
+    body, q, tail = args['body'], args['q'], args['tail']
+    quote = ("'", '"', '`')[q]
+    info = {'body': body, 'quote': quote}
+    end = ('', ';', ' ;\n', '\n')[tail]
+    if not any(ch in body for ch in '\'"`\\'):
+        sql = ('SELECT 1 FROM ' if q == 2 else 'SELECT ') + quote + body + quote + end
+        ast, err = _parse(sql, 'mindsdb')
+        if ast is not None:
+            node = ast.from_table if q == 2 else ast.targets[0]
+            got = node.parts[-1] if hasattr(node, 'parts') else getattr(node, 'value', None)
+            if got != body:
+                info.update(sql=sql, observed=got)
+                return True, info, 'prelex', 'literal %r in %r holds %r' % (body, sql, got)
+    import importlib
+    import mindsdb_sql
+    m = importlib.import_module('harness.ch_C04')
+    sql = m._prelex_sql(body, q, tail)
+    saved = mindsdb_sql.get_lexer_parser
+    try:
+        text = m._prelex(sql)
+    finally:
+        mindsdb_sql.get_lexer_parser = saved
+    info.update(sql=sql, text_handed_to_lexer=text)
+    return text != 'SELECT ' + quote + body + quote, info, 'prelex', 'parse_sql hands %r to the lexer for %r' % (text, sql)
+
+
 def specs(tier):
     return [
+        dict(fn='prelex_quoted', twin='prelex_quoted_reach', replay=replay_prelex),
         dict(fn='sq_mindsdb', twin='sq_mindsdb_reach', replay=replay_string("'", 'mindsdb', read_quoted_mindsdb)),
         dict(fn='dq_mindsdb', twin='dq_mindsdb_reach', replay=replay_string('"', 'mindsdb', read_quoted_mindsdb)),
         dict(fn='q_plain', twin='q_plain_reach', replay=replay_string(None, None, read_quoted_plain)),
@@ -177,7 +207,7 @@ def run(tier):
     run.bounds = {'lexeme_len_max': n, 'digits_max': int(os.environ['VERIF_NDIG']), 'alphabet': 'all Unicode code points (CrossHair str)'}
     run.functions = ['MindsDBLexer.QUOTE_STRING/DQUOTE_STRING/ID/VARIABLE/SYSTEM_VARIABLE (live rule actions)',
                      'SQLLexer/MySQLLexer same rules', '<Parser>.quote_string', '<Parser>.dquote_string',
-                     '<Parser>.integer', 'constant: integer', 'constant: MINUS constant', 'identifier: id',
+                     'mindsdb_sql.parse_sql (the text handed to the lexer)', '<Parser>.integer', 'constant: integer', 'constant: MINUS constant', 'identifier: id',
                      'identifier: dquote_string', 'Identifier.__init__/path_str_to_parts']
     run.assumptions = [
         'lexeme is constrained by the live lexer rule of its kind (re.fullmatch of the rule pattern) or by the reference reader accepting it as exactly one literal',
